@@ -365,6 +365,12 @@ class Gen:
         # (a colon inside a condition: real-compiler-only families — slices and dict displays are outside MiniPy)
         c0 = r.choice(COLON) if self.p("colon_conds") and r.random() < 0.4 else (self.bool_expr(0, ints) if not self.p("faults") else "nope > 0")
         branches = [(c0, self.block_items(cur_idx, depth, ints))]
+        if self.p("block_counters") and getattr(self, "loop_depth", 0) == 0 and cur_idx < len(self.names):
+            # a statement inside the block counts how often the block ran: at most once per entry of its passage
+            self.ibs = getattr(self, "ibs", [])
+            nm = f"ib_{self.names[cur_idx].replace('.', '_')}_{len(self.ibs)}"
+            self.ibs.append(nm)
+            branches[0][1].insert(0, {"k": "stmt", "code": f"{nm} = {nm} + 1", "comment": None})
         if r.random() < 0.4:
             c1 = r.choice(COLON) if self.p("colon_conds") and r.random() < 0.4 else self.bool_expr(0, ints)
             branches.append((c1, self.block_items(cur_idx, depth, ints)))
@@ -580,6 +586,7 @@ class Gen:
                 {"k": "stmt", "code": "n_TheEnd = n_TheEnd + 1", "comment": None}], "compact": True})
         inits = [{"k": "stmt", "code": f"jc_{k} = 0", "comment": None} for k in range(1, getattr(self, "njc", 0) + 1)]
         inits += [{"k": "stmt", "code": f"bj_{k} = 0", "comment": None} for k in range(1, getattr(self, "nbj", 0) + 1)]
+        inits += [{"k": "stmt", "code": f"{nm} = 0", "comment": None} for nm in getattr(self, "ibs", [])]
         passages[0]["items"] = inits + passages[0]["items"]
         return {"passages": passages, "cycles": self.cycles}
 
